@@ -23,13 +23,13 @@
 (* deviates is reported in a VERDICT line (and the rest of the cell is      *)
 (* skipped, so one rejection never hides the rest of the trace).            *)
 (*                                                                         *)
-(* "discord": at some clip an edge of positive length of the current cell   *)
-(* lay exactly in the new plane and the code removed one endpoint and kept  *)
-(* the other (or the edge has length zero - two coincident vertices - and    *)
-(* its supporting line lies in the new plane).  The new vertex is then the   *)
-(* intersection of three planes through a common line: known finding F2 (robustness of the builder on    *)
-(* exactly degenerate inputs); everything the code reports for that cell    *)
-(* afterwards is attributed to it.                                          *)
+(* Split edges: when an edge of the current cell lies exactly in the new      *)
+(* plane and the code (deciding ties on snapped coordinates) removes one end  *)
+(* point and keeps the other, the new vertex on that edge is the              *)
+(* "intersection" of three planes through a common line; the code places it    *)
+(* at the removed end point (Vertex::from_dual_on_edge, the repair of finding  *)
+(* F2) and so does the replay (VCell.NewPoint): the history is validated to    *)
+(* its end, the finished cell must still be the nearest-generator region.      *)
 (***************************************************************************)
 EXTENDS VCell, Json, IOUtils
 
@@ -117,7 +117,6 @@ TClip ==
        ELSE IF Cardinality(R) # Len(Line.rem) \/ Cardinality(TriSet(Line.rem)) # Len(Line.rem)
             THEN Skip("removed vertices are not vertices of the cell")
        ELSE IF ~(so \subseteq R /\ R \subseteq so \cup on) THEN Skip("removed set differs from the strictly clipped vertices (plus ties)")
-       ELSE IF Discord(p, R) THEN Skip("discord")
        ELSE IF R = {}
             THEN IF Len(Line.new) # 0 THEN Skip("vertices created although nothing was removed")
                  ELSE /\ visited' = visited \cup {q}
@@ -131,12 +130,13 @@ TClip ==
            want == {Canon(<<e[1], e[2], pi>>) : e \in B}
        IN IF TriSet(Line.new) # want \/ Len(Line.new) # Cardinality(want)
           THEN Skip("created vertices are not the boundary of the removed dual disc")
-          ELSE IF ~(\A e \in B : IndependentAt(ps2, <<e[1], e[2], pi>>)) THEN Skip("discord")
           ELSE /\ planes' = ps2
-               /\ verts' = (verts \ R) \cup {[t |-> t, h |-> PointOf(ps2, t)] : t \in want}
+               \* (a boundary edge lying in the new plane - the code split it by its tie decisions - gets its new vertex at
+               \* the removed end point: VCell.NewPoint, Vertex::from_dual_on_edge)
+               /\ verts' = (verts \ R) \cup {[t |-> Canon(<<e[1], e[2], pi>>), h |-> NewPoint(ps2, R, e, pi)] : e \in B}
                /\ visited' = visited \cup {q}
                /\ last' = [q |-> q, d2 |-> dd, act |-> "cut"]
-               /\ flags' = [flags EXCEPT !.tie = @ \/ on # {}, !.edgetie = @ \/ EdgeIn(on), !.nclip = @ + 1]
+               /\ flags' = [flags EXCEPT !.tie = @ \/ on # {}, !.edgetie = @ \/ EdgeIn(on) \/ Discord(p, R), !.nclip = @ + 1]
                /\ nclips' = nclips + 1
                /\ UNCHANGED <<pc, mode, why>>
 
@@ -164,16 +164,8 @@ TClipFail ==
     /\ l' = l + 1
     /\ UNCHANGED <<inp, c, caseinfo, planes, verts, visited, pc, last, flags, nclips>>
     /\ IF mode # "run" THEN UNCHANGED <<mode, why>>
-       ELSE LET q == CandOf(Line)
-                p == CandPlane(q)
-                R == RemovedOf(Line)
-                \* the new vertex of a boundary edge whose supporting line lies in the new plane (also when the edge has
-                \* length zero: two coincident vertices of which one was removed) is the intersection of three dependent planes
-                pi == Len(planes) + 1
-                ps2 == Append(planes, NgbDesc(q, p))
-                dep == \E e \in BoundaryEdges(R) : ~IndependentAt(ps2, <<e[1], e[2], pi>>)
-            IN /\ mode' = "skip"
-               /\ why' = IF q \in Cands /\ (Discord(p, R) \/ dep) THEN "discord" ELSE "panic inside a clip without a split edge in the plane"
+       ELSE /\ mode' = "skip"
+            /\ why' = "panic inside a clip"
 
 \* What the finished cell must look like.
 FinalChecks(ln) ==
@@ -183,7 +175,7 @@ FinalChecks(ln) ==
     ELSE IF ~FinalAt(RadUB) THEN "a final vertex is closer to another generator (cell is not the nearest-generator region)"
     ELSE IF ~Closed THEN "final dual triangulation is not a closed surface"
     ELSE IF ~Euler THEN "Euler relation fails"
-    ELSE IF ~Oriented THEN "a vertex triple is not counter-clockwise"
+    ELSE IF ~OrientedWeak THEN "a vertex triple is not counter-clockwise"
     ELSE IF ~InsideCurrent THEN "a vertex violates a stored half-space"
     ELSE "ok"
 
